@@ -1,0 +1,53 @@
+//go:build verif
+
+package pow
+
+// Contracts checked by /verif (gvc). This file contains comments only and is compiled only with -tags verif.
+// Property C12: a proof-of-work claim of difficulty d is honoured only if the nonce hashes above 2^64 - 2^64/d.
+
+// threshold(d) is the property's formula over mathematical integers.
+//@ spec threshold(d int) int = ite(d == 0, 0, pow2(64) - pow2(64) / d)
+
+// The two hash computations are cryptographic and stay uninterpreted: powDataHash = SHA3-256(address || previousHash),
+// powDigest = little-endian value of SHA3-256(nonce || dataHash)[:8].
+//@ spec powDataHash(address arr, prev arr) arr
+//@ spec powDigest(dataHash arr, nonce int) int
+//@   axiom 0 <= result && result < pow2(64)
+
+//@ func getTargetByDifficulty(difficulty)
+//@   ensures[threshold] le64(result) == threshold(difficulty)
+//@   modifies nothing
+
+//@ func Uint64ToByteArray(i)
+//@   ensures le64(result) == i
+//@   modifies nothing
+
+//@ func GetThresholdByDifficulty(difficulty)
+//@   requires difficulty != nil
+//@   ensures val(difficulty) >= 1 ==> result == (pow2(64) - pow2(64) / val(difficulty)) % pow2(64)
+//@   modifies nothing
+
+//@ func greaterDifficulty(x, y)
+//@   requires len(x) >= 8 && len(y) >= 8
+//@   ensures[order] result <==> le64(x) >= le64(y)
+//@   modifies nothing
+//@   loop 1
+//@     invariant -1 <= i && i <= 7
+//@     invariant forall j int :: i < j && j <= 7 ==> x[j] == y[j]
+
+//@ func GetAccountBlockHash(block)
+//@   trusted
+//@   requires block != nil
+//@   ensures result == powDataHash(block.Address, block.PreviousHash)
+//@   modifies nothing
+
+//@ func hashWithNonce(dataHash, nonce)
+//@   trusted
+//@   requires len(nonce) == 8
+//@   ensures len(result) == 8 && le64(result) == powDigest(dataHash, le64(nonce))
+//@   modifies nothing
+
+//@ func CheckPoWNonce(block)
+//@   requires block != nil
+//@   ensures[pow] result <==> powDigest(powDataHash(block.Address, block.PreviousHash), le64(block.Nonce.Data)) >= threshold(block.Difficulty)
+//@   modifies nothing
